@@ -17,6 +17,14 @@ void maps_reset(void);
 void maps_quiesce(void);
 void maps_set_current(struct verif_task t);
 void maps_set_max_entries(void *map, __u32 max_entries);
+
+/* test facilities, see maps.c */
+#define MAPS_INJECT_UPDATE 1
+#define MAPS_INJECT_DELETE 2
+void maps_inject(int kind, int k, int err);
+void maps_sched(int k, void (*fn)(void));
+void maps_run_begin(void);
+int maps_run_end(void);
 void maps_info(void *map, __u32 *type, __u32 *key_size, __u32 *value_size, __u32 *max_entries);
 void maps_dump(void *map, FILE *out);
 
